@@ -446,6 +446,28 @@ func (pp *panicProver) facts(b *ssa.BasicBlock) []pedge {
 			}
 		}
 	}
+	// positions handed out by package strings: r := strings.Index(s, sub) with a
+	// non-empty constant sub (or IndexByte / IndexRune) is -1 or a position at
+	// which sub starts, so r+1 <= len(s) either way
+	for _, blk := range pp.fn.Blocks {
+		for _, ins := range blk.Instrs {
+			c, ok := ins.(*ssa.Call)
+			if !ok || c.Call.StaticCallee() == nil || len(c.Call.Args) != 2 {
+				continue
+			}
+			switch c.Call.StaticCallee().String() {
+			case "strings.Index", "strings.LastIndex", "strings.IndexAny", "strings.LastIndexAny":
+				k, isC := c.Call.Args[1].(*ssa.Const)
+				if !isC || k.Value == nil || k.Value.Kind() != constant.String || constant.StringVal(k.Value) == "" {
+					continue
+				}
+			case "strings.IndexByte", "strings.IndexRune", "strings.LastIndexByte":
+			default:
+				continue
+			}
+			addLE(lin{pp.canon(c).term, pp.canon(c).off + 1}, pp.lenOf(c.Call.Args[0]), false)
+		}
+	}
 	// loop counters: φ(c, φ+k)
 	for _, blk := range pp.fn.Blocks {
 		for _, ins := range blk.Instrs {
